@@ -536,6 +536,8 @@ def check(s, m, init, hist):
             v("placement-parent", "%s should be in the core at %s, parent is %r" % (label, cell, a.parent))
         elif getattr(sl, "grid", None) is core.spatialGrid and (int(sl.i), int(sl.j), int(sl.k)) != cell:
             v("placement-wrong-location", "%s sits at %s, the operations put it at %s" % (label, (int(sl.i), int(sl.j), int(sl.k)), cell))
+        elif getattr(sl, "grid", None) is core.spatialGrid and a.getLocation() != core.spatialGrid.getLabel(cell[:2]):
+            v("placement-getLocation", "%s at %s reports location %r, the grid labels that cell %r" % (label, cell, a.getLocation(), core.spatialGrid.getLabel(cell[:2])))
     pcells = {}
     for label in m.pool:
         a = s.obj[label]
@@ -618,7 +620,6 @@ def check(s, m, init, hist):
     for n, o in core.blocksByName.items():
         if id(o) in purged_b:
             v("block-lookup-returns-purged", "getBlockByName(<%s>) returns block %s of a purged assembly" % ("its current name" if o.getName() == n else "a former name of " + lab(o), purged_b[id(o)]))
-    s.stale_alias = sum(1 for n, o in core.blocksByName.items() if o.getName() != n) + sum(1 for n, o in core.assembliesByName.items() if o.getName() != n)
 
     # 5. content -----------------------------------------------------------------------------
     for label in m.live():
@@ -660,7 +661,13 @@ def canon(s, m):
         sl = s.obj[l].spatialLocator
         pool.append([m.desc(l), [m.bdesc(b) for b in m.expected_blocks(l)], [int(sl.i), int(sl.j)] if hasattr(sl, "i") else None])
     purged = sorted([m.desc(l), [m.bdesc(b) for b in m.expected_blocks(l)]] for l in m.purged)
-    return json.dumps({"core": corep, "pool": pool, "purged": purged}, sort_keys=True)
+    # objects still reachable under a name they no longer carry: real (hidden) state of the lookup
+    # tables that a later purge can expose, so two states differing in it are not merged
+    alias = sorted(
+        [m.bdesc(s.blab[id(o)]) if id(o) in s.blab else "?" for n, o in s.core.blocksByName.items() if o.getName() != n]
+        + [m.desc(s.lab[id(o)]) if id(o) in s.lab else "?" for n, o in s.core.assembliesByName.items() if o.getName() != n]
+    )
+    return json.dumps({"core": corep, "pool": pool, "purged": purged, "alias": alias}, sort_keys=True)
 
 
 def full_obs(s, m):
@@ -703,12 +710,17 @@ def expand(item):
     if not uniq:
         res["full"] = full_obs(s, m)
         res["ops"] = enabled_ops(m, init)
-    res["stale"] = getattr(s, "stale_alias", 0)
     return res
 
 
 def evaluate(case):
-    return expand(case)["viols"]
+    r = expand(case)
+    vs = list(r["viols"])
+    if case.get("other") is not None:  # a differential counterexample of explore.bfs: two histories
+        r2 = expand({"init": case["init"], "hist": case["other"], "outs": []})
+        if r["canon"] == r2["canon"] and r["full"] is not None and r2["full"] is not None and r["full"] != r2["full"]:
+            vs.append(mc.viol(K + "differential", "%s and %s reach the same canonical state but differ in the full observation" % (case["hist"], case["other"]), case))
+    return vs
 
 
 # ---------------------------------------------------------------------------------------------
@@ -740,8 +752,8 @@ def inits(ctx):
                 for stat in ("none", "gp"):
                     add(c, track, stat, 2, triples="rot", addocc=1)
         add("third3", True, "mixed", 2, triples="rot", addocc=1)
-        add("third3", True, "gp", 3, fresh=[0], triples="rot", addocc=0, pool=1)
-        add("third3", False, "gp", 3, fresh=[0], triples="rot", addocc=0, pool=1)
+        add("third3", True, "gp", 3, fresh=[0], triples="rot", addocc=0, addout=0, pool=1)
+        add("third3", False, "gp", 3, fresh=[0], triples="rot", addocc=0, addout=0, pool=1)
     else:
         for c in ("third7", "full7"):
             for track in (True, False):
@@ -751,13 +763,17 @@ def inits(ctx):
             add("third7", track, "mixed", 2)
             add("third7", track, "none", 1, sfp=False, triples="all")
             add("third7", track, "gp", 1, triples="all")
-        for c in ("third3", "full3", "third4"):
+            add("full7", track, "gp", 1, triples="all")
+        for c in ("third3", "full3"):
             for track in (True, False):
                 for stat in ("none", "gp", "mixed"):
-                    add(c, track, stat, 3, triples="rot" if c != "third4" else "focus", addocc=1)
+                    add(c, track, stat, 3, triples="rot", addocc=1)
         for track in (True, False):
-            for stat in ("none", "gp"):
-                add("third3", track, stat, 4, fresh=[0], triples="rot", addocc=0, pool=1)
+            for stat in ("none", "gp", "mixed"):
+                add("third4", track, stat, 2, addocc=1)
+            add("third3", track, "none", 2, sfp=False, triples="rot", addocc=1)
+        for track, stat in ((True, "gp"), (False, "gp"), (True, "none")):
+            add("third3", track, stat, 4, fresh=[0], triples="rot", addocc=0, addout=0, pool=1)
     return out
 
 
@@ -767,7 +783,6 @@ def run(ctx):
     by_depth = {}
     for init, depth in plan:
         by_depth.setdefault(depth, []).append(init)
-    stale = 0
     for depth in sorted(by_depth):
         st = explore.bfs(ctx, MOD, by_depth[depth], depth=depth)
         explore.merge_stats(total, st)
@@ -787,7 +802,7 @@ def run(ctx):
         "bounded: histories up to the depth listed per initial state in coverage.plan; location universe = the initial cells of the generated core (7) or 3-4 cells plus one empty location",
         "alphabet bounds per initial state (coverage.plan[].init.alpha): fresh designs, cascade triples ('focus' = ordered triples of the first 4 locations, 'rot' = one per rotation class of the first 3, 'all'), at most `pool` pooled assemblies re-inserted, add-to-occupied tried on the first `addocc` locations",
         "a cascade whose first swap is legal and a later one refused (differing stationary layouts) is not in the alphabet",
-        "canonical form: location->assembly, pool (with pool positions), purged, block composition; fresh assemblies of one design are interchangeable; move counters are not part of the canonical form (they only grow and are never read by the operations) but are compared with the model along every history",
+        "canonical form: location->assembly, pool (with pool positions), purged, block composition, objects reachable under a former name; fresh assemblies of one design are interchangeable; move counters are not part of the canonical form (they only grow and are never read by the operations) but are compared with the model along every history",
         "block content fingerprint is bit-exact; block mass x symmetry factor within 1e-10",
         "one bare Operator per settings object and worker is reused as scaffolding (its reactor reference is replaced for every execution); reactor, core, pool, assemblies and FuelHandler are rebuilt for every history",
     ]
